@@ -325,14 +325,14 @@ def worker(sh):
     tabs = {}
     directed = sh.index < 4
     if sh.index == 0 or (not sh.quick and sh.index % 4 == 0):
-        gen_recode(g, random.Random(5 + sh.index), sh.pick(20, 400))
+        gen_recode(g, random.Random(5 + sh.index), sh.pick(20, 1500))
     for which in (1, 2):
         gc = points.GroupCtx(which)
         tabs[which] = GenTable(gc)
         pool = points.Pool(gc, rng, n_random=2, n_curve=1)
         # endomorphism eigenvalue is learnt from the first 'endo' events: put them first
         g0 = Gen()
-        gen_mul(g0, gc, pool, tabs[which], rng, directed and (sh.index % 2 == which - 1), sh.pick(6, 150) if which == 1 else sh.pick(4, 80))
+        gen_mul(g0, gc, pool, tabs[which], rng, directed and (sh.index % 2 == which - 1), sh.pick(6, 600) if which == 1 else sh.pick(4, 300))
         if which == 1:
             rep, kind = gc.rep(gc.gen, rng, 'zr')
             g.add('G1.endo %s' % rep, gc, 'endo', 'G1.endo', 'sub', 1, gc.gen, kind)
